@@ -12,7 +12,7 @@ OPENER = re.compile(r"@\w*[ \t]*\{")
 WS_ANY = [" ", "  ", "\t", "\n", "\n  ", " \n", "\r\n", "", "", ""]
 WS_ONE = [" ", "  ", "\t", "\n", "\n  ", "\r\n"]
 PLAIN = list("abcXYZ019 .;:!?+-*/()[]<>|'`~^_&%$") + ["é", "ß", "λ", "中", "@", "#", "ü", "Ø", "İ", "ı", "ſ", "ﬁ", "\ufeff", "\u00a0", "K"]
-ESCAPES = ["\\{", "\\}", '\\"', "\\,", "\\=", "\\\\ ", "\\'e", "\\&", "\\%", "\\@", "\\#", "\\ ", "\\o "]
+ESCAPES = ["\\{", "\\}", '\\"', "\\,", "\\=", "\\\\ ", "\\\\", "\\\\", "\\'e", "\\&", "\\%", "\\@", "\\#", "\\ ", "\\o "]
 TYPES = ["article", "Book", "inproceedings", "MISC", "a", "techreport", "online", "x_y", "ärticle",
          "commentary", "Comments", "stringent", "preambles", "PhdThesis", "B2", "_"]
 FKEYS = ["author", "title", "year", "Month", "note", "url", "a", "b-c", "x_1", "Title", "editor", "pages",
@@ -62,8 +62,8 @@ def _defuse(s):
 
 
 def _no_trailing_backslash(s):
-    """(S2) the text in front of a closing delimiter must not end in a backslash."""
-    return s + " " if s.endswith("\\") else s
+    """(S2) the text in front of a closing delimiter must not end in an unescaped backslash (an odd run)."""
+    return s + " " if (len(s) - len(s.rstrip("\\"))) % 2 else s
 
 
 def body(r, opts, depth, in_quote=False):
@@ -195,7 +195,7 @@ def preamble(r, opts):
 
 def ecomment(r, opts):
     t = _no_trailing_backslash(_defuse(body(r, opts, 1)))
-    if t.strip().endswith("\\"):
+    if _no_trailing_backslash(t.strip()) != t.strip():   # the trimmed text is what the writer puts in front of '}'
         t = t.strip() + "."
     return "@" + r.choice(["comment", "Comment", "COMMENT"]) + r.choice(["", " "]) + "{" + t + "}", ["ecomment", t.strip()]
 
